@@ -99,7 +99,11 @@ func genCase(t *rapid.T) Case {
 	if rapid.IntRange(0, 2).Draw(t, "alttags") == 0 {
 		c.AltTags = true
 		c.AltFirst = rapid.Bool().Draw(t, "altfirst")
-		addAlt(c.T, rapid.Bool().Draw(t, "altswap"))
+		// (names are not swapped between fields when a dotted name leads into the namespace of a struct field:
+		// the swapped names would use one name for a value and for an object)
+		var f features
+		scan(c.T, 0, &f)
+		addAlt(c.T, rapid.Bool().Draw(t, "altswap") && !f.overlap)
 	}
 	return c
 }
@@ -110,7 +114,7 @@ type features struct {
 	inline, ignore, unexp, dotted, emptyTag   bool
 	ptr, slice, array, mapk, dur, re, named   bool
 	inlineMapNextToNamed, ptrToArray, nonZero bool
-	numericTag                                bool
+	numericTag, overlap, uniName              bool
 }
 
 func scan(td *gen.TD, depth int, f *features) {
@@ -134,6 +138,9 @@ func scan(td *gen.TD, depth int, f *features) {
 		f.mapk = true
 		scan(td.Elem, depth+1, f)
 	case "struct":
+		if td.Overlap {
+			f.overlap = true
+		}
 		named := 0
 		inlMap := false
 		for i := range td.Fields {
@@ -155,6 +162,9 @@ func scan(td *gen.TD, depth int, f *features) {
 			}
 			if fd.Tag == "" && !fd.Inline {
 				f.emptyTag = true
+			}
+			if fd.Name[0] >= 0x80 {
+				f.uniName = true
 			}
 			if len(fd.Tag) > 0 && fd.Tag[0] >= '0' && fd.Tag[0] <= '9' {
 				f.numericTag = true
@@ -295,7 +305,9 @@ func runCase(c Case, r *runlog.R) error {
 	r.ClassIf(f.inline, "inline")
 	r.ClassIf(f.ignore, "ignore")
 	r.ClassIf(f.unexp, "unexported")
+	r.ClassIf(f.uniName, "exported Go field name starting with a non-ASCII letter")
 	r.ClassIf(f.dotted, "dotted tag")
+	r.ClassIf(f.overlap, "dotted tag leading into the namespace of a struct field")
 	r.ClassIf(f.emptyTag, "no config name")
 	r.ClassIf(f.ptr, "pointer")
 	r.ClassIf(f.slice, "slice")
@@ -312,7 +324,7 @@ func runCase(c Case, r *runlog.R) error {
 
 var subRT = runlog.Register(&runlog.Sub[Case]{
 	Name: "struct-roundtrip",
-	Rule: "random struct types (reflect.StructOf over all primitive kinds, named variants, durations, regexps, pointers, slices, arrays, string-keyed maps, nested and inline structs; tags: rename, rename to a number, dotted with PathSep, inline, ignore, unexported, no name) with values biased to zero values, type extremes, NaN/-0/Inf, nil vs empty collections and strings with $ . , { }; Unpack(NewFrom(v)) into a zero value must equal v; a third of the types carry a second tag set and are round-tripped under the default tag name and under StructTag(alt) alternately in one process (nil == empty collection, regexps by source, pointer chains by pointee, ignored/unexported fields zero). Non-trivial: the type has >= 2 levels or a tag other than a plain rename, and the value has a non-zero leaf. Distinct: hash of (type, value, options).",
+	Rule: "random struct types (reflect.StructOf over all primitive kinds, Go field names incl. non-ASCII exported ones, named variants, durations, regexps, pointers, slices, arrays, string-keyed maps, nested and inline structs; tags: rename, rename to a number, dotted with PathSep (also leading 1-3 levels into the namespace of a struct field declared before or after it), inline, ignore, unexported, no name) with values biased to zero values, type extremes, NaN/-0/Inf, nil vs empty collections and strings with $ . , { }; Unpack(NewFrom(v)) into a zero value must equal v; a third of the types carry a second tag set and are round-tripped under the default tag name and under StructTag(alt) alternately in one process (nil == empty collection, regexps by source, pointer chains by pointee, ignored/unexported fields zero). Non-trivial: the type has >= 2 levels or a tag other than a plain rename, and the value has a non-zero leaf. Distinct: hash of (type, value, options).",
 	Gen:  genCase,
 	Run:  runCase,
 })
